@@ -14,10 +14,14 @@ Two workloads, both decided by a literal O(n^2) python-float oracle:
   invariance (a function of a multiset may not depend on the order).
 * study histories (`kind='history'`, see vv/c11_study.py): SUCCEEDED /
   INFEASIBLE / ACTIVE / STOPPING / REQUESTED / missing-metric / NaN-objective
-  trials under mixed goals and safety metrics, asked through
-  VizierServicer.ListOptimalTrials (RAM and SQL datastores, trials inserted
-  directly or driven through the client RPCs), clients.Study.optimal_trials
-  and InRamPolicySupporter.GetBestTrials.
+  trials under mixed goals and 0..3 safety metrics (each reported or not per
+  trial), asked through VizierServicer.ListOptimalTrials (RAM and SQL
+  datastores, trials inserted directly or driven through the client RPCs),
+  clients.Study.optimal_trials and InRamPolicySupporter.GetBestTrials. Metrics
+  are identified by name: trials list their metrics in their own order, the
+  study configuration lists objectives and safety metrics in any order under
+  several naming schemes, unconfigured metrics carry names close to
+  configured ones. The two workloads are interleaved.
 """
 import math
 
@@ -33,11 +37,18 @@ RULE = (
     'distinct points repeated, constant first coordinate, chain, antichain, multiples '
     'of 1/8, float64-only distinctions, huge magnitudes, copies of one point, NaN rows) x '
     '~40 routine configurations; history: 0..14 trials of 9 kinds x 1..3 objectives with '
-    'mixed goals x optional safety metric x {RAM,SQL} x {direct insert, client RPC path} '
-    'x GetBestTrials count in {None,1,2,3,5}. Non-trivial = at least one dominated point / '
-    'non-qualifying trial or a tie; distinct = hash of (class, n, d, #distinct points, '
-    '#optimal, tie pattern, non-finite pattern) resp. (goals, safety, multiset of trial '
-    'kinds, #optimal, mode).')
+    'mixed goals x 0..3 safety metrics (thresholds 0/0.5/1/2, each reported by a trial '
+    'with probability 1/0.85/0.6; trials breaking a threshold often carry the best '
+    'objective values) x {RAM,SQL} x {direct insert, client RPC path} x GetBestTrials '
+    'count in {None,1,2,3,5} x presentation: 4 naming schemes (config order != sorted '
+    'order, names differing by case / prefix), configuration order canonical or shuffled '
+    '(safety metrics before / between objectives), metrics listed by every trial in '
+    'config order / one other common order / its own order, unconfigured metrics named '
+    'like configured ones. Point sets and histories are interleaved in rounds (32:10). '
+    'Non-trivial = at least one dominated point / non-qualifying trial or a tie; distinct '
+    '= hash of (class, n, d, #distinct points, #optimal, tie pattern, non-finite pattern) '
+    'resp. (goals, shape and sortedness of the configuration order, multiset of trial '
+    'kinds, #optimal, mode, count, reporting-order profile).')
 ASSUMPTIONS = [
     'oracle: p dominates q iff p>=q in every coordinate and p>q in one (python floats, '
     'IEEE: NaN dominates nothing and is dominated by nothing)',
@@ -54,7 +65,16 @@ ASSUMPTIONS = [
     'studies with a safety metric: the result may agree with any of five readings of the '
     'property (safety metric as one more objective; unsafe trials warped to the worst '
     'value as documented by SafetyChecker, with or without demanding the safety metric '
-    'be reported; unsafe trials excluded, ditto); a violation needs all five to disagree',
+    'be reported; unsafe trials excluded, ditto); a violation needs all five to disagree. '
+    'With several safety metrics a trial is unsafe iff some safety metric it *reports* is '
+    'beyond its threshold (unreported ones are assumed fine, the documented rule of '
+    'SafetyChecker); "safety required" means every safety metric reported',
+    'metrics are identified by name: the answer may not depend on the order in which a '
+    'trial lists its metrics, on the order or spelling of the names in the study '
+    'configuration, or on unconfigured metrics. The verdict always comes from the '
+    'definition; re-asking the same history in configuration order / canonical '
+    'configuration order / canonical names is only used to name a disagreement '
+    '(mechanism suffix :depends-on-metric-report-order / -config-order / -names)',
     'order of optimal trials is unspecified: compared as sets of trial ids (duplicates '
     'in the answer are a violation)',
     'optimal_trials(count=k) raising ValueError("Count not supported.") is a documented '
@@ -72,6 +92,18 @@ REQUIRED_COUNTERS = [
     'hist:rpc_mode', 'hist:with_nonqualifying', 'hist:with_ties', 'hist:with_safety',
     'hist:single_objective', 'hist:multi_objective', 'hist:mixed_goals',
     'hist:getbest_count',
+    # presentation of metrics (observed on what the datastore / supporter holds)
+    'hist:service_report_orders_differ', 'hist:getbest_report_orders_differ',
+    'hist:config_order_not_alphabetical', 'hist:safety_configured_before_an_objective',
+    'hist:unconfigured_metric_with_similar_name',
+    # several safety metrics, partially reported, and histories where the safety
+    # verdicts decide the answer
+    'hist:multi_safety', 'hist:safety_partially_reported',
+    'hist:safety_verdict_decides_answer',
+    'hist_unsafe:an-earlier-safety-metric-unreported',
+    'hist_unsafe:an-earlier-safety-metric-within-threshold',
+    'hist_unsafe:a-later-safety-metric-within-threshold',
+    'array_cases_run', 'history_cases_run',
 ]
 MIN_DISTINCT = {'quick': 600, 'thorough': 4000}
 
@@ -562,45 +594,68 @@ def run_shard(ctx):
   quick = ctx.tier == 'quick'
   n_arrays = 9600 if quick else 200000
   n_hist = 3000 if quick else 120000
-  # the array part gets ~60% of the budget, histories the rest
+  # The two workloads are interleaved in rounds (32 point sets : 10 histories, the
+  # ratio of the two totals) so that neither waits for the other; the array part
+  # may use ~55% of the budget, histories the rest.
+  A, H = 32, 10
   t_arrays = ctx.budget_s * 0.55
-  done_a = 0
-  for i in range(n_arrays):
-    if not ctx.mine(i):
-      continue
-    if ctx.elapsed() > t_arrays:
-      ctx.note(f'array budget reached at case {i} of {n_arrays}')
-      break
-    rng = ctx.rng(i, 'array')
-    case = gen_array_case(rng, ctx.tier, i)
-    # JAX compiles once per argument shape (~45 ms each, is_frontier alone goes
-    # through many): JAX routines see every 8th (thorough: 6th) case and only
-    # sets of at most 10 (thorough: 40) points.
-    jax_on = (i // len(CLASSES)) % (8 if quick else 6) == 0
-    if len(case['P']) > (10 if quick else 40):
-      jax_on = False
-    check_array(ctx, case, jax_on=jax_on)
-    done_a += 1
-    if i < 2 * ctx.nshards:
-      ctx.sample({'class': case['class'], 'd': case['d'], 'P': case['P'][:6],
-                  'n': len(case['P'])})
-  ctx.count('array_cases_run', done_a)
+  spent_a = 0.0
+  done_a = done_h = 0
+  arrays_open = histories_open = True
   S = c11_study.Services()
   try:
-    for j in range(n_hist):
-      if not ctx.mine(j):
-        continue
+    for r in range(max(-(-n_arrays // A), -(-n_hist // H))):
       if ctx.out_of_time():
-        ctx.note(f'time budget reached at history {j} of {n_hist}')
+        ctx.note(f'time budget reached in round {r}: {done_a} point sets, '
+                 f'{done_h} histories done by this shard')
         break
-      rng = ctx.rng(j, 'history')
-      spec = c11_study.gen_history(rng, ctx.tier, j)
-      c11_study.check_history(ctx, spec, S)
-      if j < ctx.nshards:
-        ctx.sample({'goals': spec['goals'], 'safety': spec['safety'],
-                    'kinds': [t['k'] for t in spec['trials']], 'mode': spec['mode']})
+      t0 = ctx.elapsed()
+      for i in range(r * A, min((r + 1) * A, n_arrays)):
+        if not arrays_open:
+          break
+        if not ctx.mine(i):
+          continue
+        if spent_a + (ctx.elapsed() - t0) > t_arrays:
+          ctx.note(f'array budget reached at case {i} of {n_arrays}')
+          arrays_open = False
+          break
+        rng = ctx.rng(i, 'array')
+        case = gen_array_case(rng, ctx.tier, i)
+        # JAX compiles once per argument shape (~45 ms each, is_frontier alone goes
+        # through many): JAX routines see every 8th (thorough: 6th) case and only
+        # sets of at most 10 (thorough: 40) points.
+        jax_on = (i // len(CLASSES)) % (8 if quick else 6) == 0
+        if len(case['P']) > (10 if quick else 40):
+          jax_on = False
+        check_array(ctx, case, jax_on=jax_on)
+        done_a += 1
+        if i < 2 * ctx.nshards:
+          ctx.sample({'class': case['class'], 'd': case['d'], 'P': case['P'][:6],
+                      'n': len(case['P'])})
+      spent_a += ctx.elapsed() - t0
+      for j in range(r * H, min((r + 1) * H, n_hist)):
+        if not histories_open:
+          break
+        if not ctx.mine(j):
+          continue
+        if ctx.out_of_time():
+          ctx.note(f'time budget reached at history {j} of {n_hist}')
+          histories_open = False
+          break
+        rng = ctx.rng(j, 'history')
+        spec = c11_study.gen_history(rng, ctx.tier, j)
+        c11_study.check_history(ctx, spec, S)
+        done_h += 1
+        if j < ctx.nshards:
+          ctx.sample({'goals': spec['goals'], 'cfg': spec['cfg'],
+                      'safeties': spec['safeties'],
+                      'kinds': [t['k'] for t in spec['trials']], 'mode': spec['mode'],
+                      'order_profile': spec['order_profile'],
+                      'reported': [t.get('ord') for t in spec['trials']][:4]})
   finally:
     S.close()
+  ctx.count('array_cases_run', done_a)
+  ctx.count('history_cases_run', done_h)
 
 
 def replay(ctx, case):
